@@ -344,7 +344,7 @@ class EventMixin (object):
     if type(handler) == tuple:
       # It's a type/eid pair
       if eventType == None: eventType = handler[0]
-      handlers = self._eventMixin_handlers[eventType]
+      handlers = self._eventMixin_handlers.get(eventType, [])
       l = len(handlers)
       self._eventMixin_handlers[eventType] = [x for x in handlers
                                               if x[3] != handler[1]]
@@ -373,7 +373,7 @@ class EventMixin (object):
                                               if x[1] != handler]
           altered = altered or l != len(self._eventMixin_handlers[event])
       else:
-        handlers = self._eventMixin_handlers[eventType]
+        handlers = self._eventMixin_handlers.get(eventType, [])
         l = len(handlers)
         self._eventMixin_handlers[eventType] = [x for x in handlers
                                                 if x[1] != handler]
